@@ -8,6 +8,7 @@ import DnsVerif.Props.C20
 #print axioms DnsVerif.Props.C20.chain_no_panic
 #print axioms DnsVerif.Props.C20.listener_no_question
 #print axioms DnsVerif.Props.C20.listener_accepts
+#print axioms DnsVerif.Props.C20.listener_header_only
 #print axioms DnsVerif.Props.C20.whoamiMatch_iff
 #print axioms DnsVerif.Props.C20.whoami_on_match
 #print axioms DnsVerif.Props.C20.whoami_only_on_match
